@@ -34,7 +34,7 @@ def run_checks(patch):
             if ": violation [" in line or ": undecided [" in line or line.startswith("  floor:"):
                 reported.setdefault(cur, []).append(line.strip()[:500])
     finally:
-        sh(["git", "-C", REPO, "checkout", "--", "."])
+        sh(["git", "-C", REPO, "checkout", "--", "."]); sh(["git", "-C", REPO, "clean", "-fdq"])
     rc2, o2 = sh(["git", "-C", REPO, "status", "--porcelain"])
     assert o2.strip() == "", "/repo not restored: " + o2
     return rc, reported
